@@ -2,6 +2,7 @@
 from ..cfgq import Scope, bool_taken, iter_chain, strip, closure_id_of, returned_nodes
 from ..exprs import ExprBuilder, leaf_name, short_callee, show, walk
 from ..mir import callee_name
+from ..facts import AnalysisError
 from ..spec.refgraph import CHECKER_LINKS, REFS
 
 ID = "C15"
@@ -127,6 +128,9 @@ def run(ctx):
     prog = ctx.prog
     check = prog.fn_by_path("bemodel::checks::check")
     sets, results = analyse_checker(ctx, check, CHECKER_LINKS)
+    # the obligations are phrased over `warnings.push(Warning {..})` sites and their dominating conditions; a checker written in another
+    # style (helpers returning Option<Warning>, collected through an iterator) is not understood: cannot decide, rather than a finding per link
+    ctx.require(len(results) >= 1, "check(): no `Vec::push(Warning {..})` site found: the checker's structure is not the one this rule reads (cannot decide)")
     nsets = {c[1] for r in results for c in r[0] if c[0] == "member" and c[1]}
     ctx.floor("c15.sets", "distinct id sets tested", len(nsets), 4)
     ctx.floor("c15.link", "warning pushes", len(results), 6)
